@@ -20,6 +20,8 @@ pub struct Oracles {
     pub lifecycle: bool,
     /// only outcome (accept / reject) of writes is compared with the model (C09)
     pub outcome_only: bool,
+    /// generated AUTO_INCREMENT values exceed every value the column has ever held (C12)
+    pub auto_inc: bool,
 }
 
 #[derive(Clone, Debug)]
@@ -55,6 +57,7 @@ pub struct RunInfo {
     pub delete_then_touch: bool,
     pub rollback_nontrivial: bool,
     pub failing_after_first: bool,
+    pub auto_generated_after_event: bool,
 }
 
 pub fn run_history(cfg: &RunCfg, h: &History) -> (Outcome, RunInfo) {
@@ -70,6 +73,7 @@ pub fn run_history(cfg: &RunCfg, h: &History) -> (Outcome, RunInfo) {
         delete_then_touch: false,
         rollback_nontrivial: false,
         failing_after_first: false,
+        auto_generated_after_event: false,
     };
     NEG_DEFAULT_OK.with(|c| c.set(!cfg.closed_gates.contains("negative_default")));
     let mut db = Db::create(cfg.prop);
@@ -93,7 +97,11 @@ pub fn run_history(cfg: &RunCfg, h: &History) -> (Outcome, RunInfo) {
             }
         }
     }
-    let need_obs = cfg.oracles.fail_no_effect || cfg.oracles.rollback || cfg.oracles.lifecycle;
+    let need_obs = cfg.oracles.fail_no_effect || cfg.oracles.rollback || cfg.oracles.lifecycle || cfg.oracles.auto_inc;
+    // C12: per table, the largest value the AUTO_INCREMENT column has ever been observed to hold,
+    // and what happened since the last generated id
+    let mut auto_hwm: std::collections::BTreeMap<String, i64> = Default::default();
+    let mut auto_events: std::collections::BTreeMap<String, Vec<&'static str>> = Default::default();
     let mut last_obs: Option<Obs> = if need_obs { Some(obs(&db, &model.tables, cfg.probes)) } else { None };
     let mut begin_obs: Option<Obs> = None;
     let mut sp_obs: Vec<(String, Obs)> = Vec::new();
@@ -120,10 +128,19 @@ pub fn run_history(cfg: &RunCfg, h: &History) -> (Outcome, RunInfo) {
     }
 
     for op in &h.ops {
-        let Some(r) = model.resolve(op) else {
+        let Some(mut r) = model.resolve(op) else {
             info.skipped += 1;
             continue;
         };
+        if cfg.oracles.auto_inc && r.kind == "INSERT" && (r.tags.contains(&"auto_inc_generated") || r.tags.contains(&"auto_inc_explicit_null")) {
+            if let Some(ev) = r.table.as_ref().and_then(|t| auto_events.get(t)) {
+                for e in ev {
+                    if !r.tags.contains(e) {
+                        r.tags.push(e);
+                    }
+                }
+            }
+        }
         if let Some(g) = r.tags.iter().find(|t| cfg.closed_gates.contains(**t)) {
             info.gated.push((*g).to_string());
             continue;
@@ -321,6 +338,67 @@ pub fn run_history(cfg: &RunCfg, h: &History) -> (Outcome, RunInfo) {
                     }
                 }
                 TxnEffect::None => {}
+            }
+        }
+        if cfg.oracles.auto_inc {
+            if let Some(nowo) = &now {
+                // events that matter for the next generated id
+                let ev: Option<&'static str> = match r.kind {
+                    "ROLLBACK" | "ROLLBACK_TO" => Some("generated_after_rollback"),
+                    "REOPEN" | "DROP_REOPEN" => Some("generated_after_reopen"),
+                    "DELETE" if r.rows_touched > 0 => Some("generated_after_delete"),
+                    "TRUNCATE" => Some("generated_after_truncate"),
+                    "CHECKPOINT" | "PRAGMA_CHECKPOINT" => Some("generated_after_checkpoint"),
+                    _ => None,
+                };
+                if let Some(e) = ev {
+                    for t in &model.tables {
+                        if t.auto_col().is_some() {
+                            let v = auto_events.entry(t.name.clone()).or_default();
+                            if !v.contains(&e) {
+                                v.push(e);
+                            }
+                        }
+                    }
+                }
+                for t in &model.tables {
+                    let Some(ac) = t.auto_col() else { continue };
+                    let ids_now: Vec<i64> = nowo.get(&t.name).and_then(|o| o.rows.as_ref().ok()).map(|rs| rs.iter().filter_map(|r| if let Some(Val::Int(i)) = r.get(ac) { Some(*i) } else { None }).collect()).unwrap_or_default();
+                    let generated_stmt = r.kind == "INSERT"
+                        && r.table.as_deref() == Some(t.name.as_str())
+                        && matches!(exec, Exec::Ok { .. })
+                        && (r.tags.contains(&"auto_inc_generated") || r.tags.contains(&"auto_inc_explicit_null"))
+                        && !r.tags.contains(&"auto_inc_explicit");
+                    if generated_stmt {
+                        let ids_before: Vec<i64> = last_obs.as_ref().and_then(|o| o.get(&t.name)).and_then(|o| o.rows.as_ref().ok()).map(|rs| rs.iter().filter_map(|r| if let Some(Val::Int(i)) = r.get(ac) { Some(*i) } else { None }).collect()).unwrap_or_default();
+                        let mut fresh: Vec<i64> = ids_now.clone();
+                        for b in &ids_before {
+                            if let Some(p) = fresh.iter().position(|x| x == b) {
+                                fresh.remove(p);
+                            }
+                        }
+                        let hwm = auto_hwm.get(&t.name).copied().unwrap_or(0);
+                        if auto_events.get(&t.name).map(|v| !v.is_empty()).unwrap_or(false) && !fresh.is_empty() {
+                            info.auto_generated_after_event = true;
+                        }
+                        if let Some(bad) = fresh.iter().find(|g| **g <= hwm) {
+                            fail!("generated_id_not_above_history", r, format!("{} generated id {} but the column has already held {} (ids now {:?})", short(&r.sql), bad, hwm, ids_now));
+                        }
+                        let mut sorted = fresh.clone();
+                        sorted.sort();
+                        sorted.dedup();
+                        if sorted.len() != fresh.len() {
+                            fail!("generated_ids_not_distinct", r, format!("{} generated duplicate ids {:?}", short(&r.sql), fresh));
+                        }
+                        auto_events.remove(&t.name);
+                    }
+                    if let Some(m) = ids_now.iter().max() {
+                        let e = auto_hwm.entry(t.name.clone()).or_insert(0);
+                        if *m > *e {
+                            *e = *m;
+                        }
+                    }
+                }
             }
         }
         if now.is_some() {
